@@ -63,7 +63,7 @@ pub fn payload(rng: &mut Rng, uniq: u64, big_pct: u32, aligned: bool) -> PaySpec
     let len = if aligned {
         24
     } else if rng.pct(big_pct) {
-        *rng.pick(&[3900usize, 4096, 4200, 9000, 70_000])
+        *rng.pick(&[3900usize, 4096, 4200, 9000, 70_000, 300_000])
     } else {
         match rng.below(10) {
             0 => 1,
